@@ -101,6 +101,8 @@ enum Claim {
     Grants,
     /// C50 (user side): a synchronised entry is changed only in yielded + session state
     SyncEntry,
+    /// the same, restricted to sync objects that do NOT also fall under the protection ruleset
+    SyncEntryOrdinary,
 }
 
 struct Witness {
@@ -118,8 +120,12 @@ fn granted_sets(kind: u8, n_acp: usize, claim: Claim) -> Witness {
     let class_bits = any_class_bits();
     let has_classes: bool = kani::any();
     let euuid = Uuid(kani::any::<u8>() % 4);
-    if claim == Claim::SyncEntry {
+    if claim == Claim::SyncEntry || claim == Claim::SyncEntryOrdinary {
         kani::assume(has_classes && class_bits & cbit(EntryClass::SyncObject) != 0);
+    }
+    if claim == Claim::SyncEntryOrdinary {
+        let prot = mask_of(&[EntryClass::System, EntryClass::DomainInfo, EntryClass::SystemInfo, EntryClass::SystemConfig, EntryClass::DynGroup, EntryClass::Tombstone, EntryClass::Recycled]);
+        kani::assume(euuid > UUID_ANONYMOUS && class_bits & prot == 0);
     }
     let cset: BTreeSet<String> = BTreeSet::model_from_bits(class_bits);
     // a sync agreement yields at most 3 attributes (stated bound)
@@ -187,7 +193,7 @@ fn granted_sets(kind: u8, n_acp: usize, claim: Claim) -> Witness {
             }
             }
             // synchronised entries: only session / credential-reset state and yielded attributes
-            if claim == Claim::SyncEntry {
+            if claim == Claim::SyncEntry || claim == Claim::SyncEntryOrdinary {
                 let base = abit(Attribute::UserAuthTokenSession) | abit(Attribute::OAuth2Session) | abit(Attribute::OAuth2ConsentScopeMap) | abit(Attribute::CredentialUpdateIntentToken);
                 let y = match (&agreements.one, sync_parent) {
                     (Some((k, _)), Some(p)) if *k == p => yielded,
@@ -292,6 +298,22 @@ fn c50_user_edit_of_sync_entry_two_profiles() {
     kani::cover!(w.sync_constrained, "sync object, constrained");
     kani::cover!(w.yielded_allowed, "a yielded attribute is allowed");
     kani::cover!(w.deny, "a sync object denied");
+}
+
+#[kani::proof]
+#[kani::unwind(16)]
+fn c50_user_edit_of_ordinary_sync_entry_one_profile() {
+    let w = granted_sets(0, 1, Claim::SyncEntryOrdinary);
+    kani::cover!(w.sync_constrained, "sync object, constrained");
+    kani::cover!(w.yielded_allowed, "a yielded attribute is allowed");
+    kani::cover!(w.deny, "a sync object denied");
+}
+#[kani::proof]
+#[kani::unwind(16)]
+fn c50_user_edit_of_sync_entry_no_profile() {
+    let w = granted_sets(0, 0, Claim::SyncEntry);
+    kani::cover!(w.deny, "a sync object denied");
+    kani::cover!(!w.deny && !w.allowed_something, "nothing granted, nothing allowed");
 }
 
 /// Reachability twin: must FAIL.
